@@ -63,6 +63,28 @@ def chunks : Nat → Bytes → Bytes → ChunkRes
 def fieldValues (fs : List Field) (key : Bytes) : List Bytes :=
   (fs.filter fun f => eqCI f.name key).map (·.value)
 
+/-- RFC 9112 §6.3 on a field list: how long is the message body -/
+inductive RefBody
+  | none
+  | len (n : Nat)
+  | chunked
+  | invalid
+deriving DecidableEq, Repr
+
+/-- **the strict reference decision on an arbitrary field list** (names compared without regard to
+    case, every field of that name counts, values exactly as delivered by the field parser):
+    no Transfer-Encoding and no Content-Length ⇒ no body; exactly one Content-Length and its value
+    `1*DIGIT` with a representable number ⇒ that length; exactly one Transfer-Encoding whose value
+    is `chunked` and nothing else, and no Content-Length ⇒ chunked; **everything else is invalid**
+    (several / differing / malformed / list-valued Content-Length, a transfer coding other than
+    chunked or a list of codings, several Transfer-Encoding fields, both fields together). -/
+def bodyKind (fs : List Field) : RefBody :=
+  match fieldValues fs hdrTransferEncoding, fieldValues fs hdrContentLength with
+  | [], [] => .none
+  | [], [v] => if v.isEmpty || ! v.all isDigit || decValue v ≥ sizeUnknown then .invalid else .len (decValue v)
+  | [te], [] => if eqCI te tokChunked then .chunked else .invalid
+  | _, _ => .invalid
+
 inductive NextRes
   | incomplete
   | invalid
@@ -76,8 +98,8 @@ def persistent (h : Head) : Bool :=
   else lookupToken h.fields hdrConnection tokKeepAlive
 
 /-- RFC 9112 §6.3 message body length, strictly: any ambiguity is invalid -/
-def next (b : Bytes) : NextRes :=
-  match parseHead b with
+def next [P : HeadParser] (b : Bytes) : NextRes :=
+  match P.head b with
   | .incomplete => .incomplete
   | .bad => .nonCanonical
   | .ok h rest =>
@@ -91,7 +113,7 @@ def next (b : Bytes) : NextRes :=
         | .incomplete => .incomplete
         | .invalid => .invalid
         | .ok body r2 =>
-          match parseTrailers r2 with
+          match P.trailers r2 with
           | .incomplete => .incomplete
           | .bad => .nonCanonical
           | .ok _ r3 => .frame ⟨h.method, h.target, body, persistent h⟩ r3
@@ -104,7 +126,7 @@ def next (b : Bytes) : NextRes :=
         else .frame ⟨h.method, h.target, rest.take (decValue v), persistent h⟩ (rest.drop (decValue v))
       | _ :: _ :: _ => .invalid
 
-def framesFuel : Nat → Bytes → List Frame × RefEnd
+def framesFuel [HeadParser] : Nat → Bytes → List Frame × RefEnd
   | 0, b => ([], .incomplete b.length)
   | f + 1, b =>
     match b with
@@ -122,7 +144,7 @@ def framesFuel : Nat → Bytes → List Frame × RefEnd
 
 /-- the reference framing of a byte stream (the level only matters through the Host rule,
     which the reference does not apply: requests lacking Host are outside the agreement theorem) -/
-def frames (_lvl : Int) (b : Bytes) : List Frame × RefEnd := framesFuel (b.length + 1) b
+def frames [HeadParser] (_lvl : Int) (b : Bytes) : List Frame × RefEnd := framesFuel (b.length + 1) b
 
 end Framer
 
